@@ -99,6 +99,18 @@ def configs(quick, rnd):
     out.append([('a', 'v_a'), ('v_a', 'a')])
     out.append([('a', 'v_a'), ('v_a', 'b'), ('b', 'a')])
     out.append([('x1', 'x_2'), ("x'", 'x1')])
+    # nested collisions with the helper prefix: every 2- and 3-subset of a pool of names that are each other's
+    # `v_`-prefixed forms, as a symmetric path (quick: the subsets containing `a`; thorough: all, also as complete graphs)
+    pool = ['a', 'v_a', 'v__a', 'v___a', 'b', 'v_b', 'v__b']
+    for r in (2, 3):
+        for vs in itertools.combinations(pool, r):
+            if quick and (vs[0] != 'a' or 'v_a' not in vs):
+                continue
+            path = [(vs[i], vs[i + 1]) for i in range(len(vs) - 1)]
+            out.append(path + [(y, x) for x, y in path])
+            if not quick and r == 3:
+                comp = [(x, y) for x in vs for y in vs if x != y]
+                out.append(comp)
     uniq = []
     for c in out:
         if c not in uniq:
